@@ -94,7 +94,7 @@ class EBB3:
             self.port.write('RB\r'.encode('ascii'))
             self.disconnect()
             return True
-        except (serial.SerialException, serial.serialutil.PortNotOpenError):
+        except (serial.SerialException, serial.serialutil.PortNotOpenError, OSError):
             return False
 
 
@@ -110,7 +110,7 @@ class EBB3:
             self.port.write('BL\r'.encode('ascii'))
             self.disconnect()
             return True
-        except (serial.SerialException, serial.serialutil.PortNotOpenError):
+        except (serial.SerialException, serial.serialutil.PortNotOpenError, OSError):
             return False
 
 
@@ -194,7 +194,7 @@ class EBB3:
         if self.port is not None:
             try:
                 self.port.close()
-            except (serial.SerialException, serial.serialutil.PortNotOpenError):
+            except (serial.SerialException, serial.serialutil.PortNotOpenError, OSError):
                 pass # We try to err on the side of trying to close the port.
         self.port = None
 
